@@ -47,6 +47,17 @@ Theorem C03_single_block_served : forall st q ign o sp u,
   spec_candidate st q ign u -> contains_total (u_assets u) (target_of q) = true ->
   select st sp q ign o <> [].
 Proof. exact single_block_served. Qed.
+(** ... and a `many` block whenever the candidates handed to coin selection (by the theorem above:
+    the property's candidates) together cover the requested amount *)
+Theorem C03_many_block_served : forall st q ign o sp,
+  wf_store st -> store_nonneg st -> q_many q = true ->
+  narrow st q = Ok sp ->
+  order_ok (o_sorted o) (fetched_cands st sp q ign (o_fill o)) = true ->
+  nonneg (target_of q) ->
+  fetched_cands st sp q ign (o_fill o) <> [] ->
+  (forall k, get0 (target_of q) k <= get0 (total (fetched_cands st sp q ign (o_fill o))) k) ->
+  select st sp q ign o <> [].
+Proof. exact many_block_served. Qed.
 (** the selection window, regenerated constant tie is in gen/Consts.v when present *)
 Theorem C03_window : window = 50%nat.
 Proof. reflexivity. Qed.
@@ -60,3 +71,4 @@ Print Assumptions C03_many_complete.
 Print Assumptions C03_window.
 Print Assumptions C03_candidates_exact.
 Print Assumptions C03_single_block_served.
+Print Assumptions C03_many_block_served.
